@@ -1,7 +1,7 @@
 import json,os
 p='/verif/DESIGN.md'
 s=open(p).read()
-desc=json.load(open('/tmp/seed_desc.json'))
+desc=json.load(open('/verif/seeded/descriptions.json'))
 rows=[]
 for d in sorted(os.listdir('/verif/seeded')):
     mp='/verif/seeded/%s/meta.json'%d
@@ -12,7 +12,8 @@ for d in sorted(os.listdir('/verif/seeded')):
     cell=", ".join(("**%s**"%(",".join(v))) if k==own else ",".join(v) for k,v in fired.items())
     a,b=desc.get(d,["?","?"])
     rows.append("| %s | %s | %s | %s |"%(d,a,b,cell))
-sec=open('/verif/tools/_sec10.txt').read().replace("@@ROWS@@","\n".join(rows))
+own=sum(1 for d in os.listdir('/verif/seeded') if os.path.exists('/verif/seeded/%s/meta.json'%d) and json.load(open('/verif/seeded/%s/meta.json'%d)).get('caught_by_own_property'))
+sec=open('/verif/tools/_sec10.txt').read().replace("@@ROWS@@","\n".join(rows)).replace("@@N@@",str(len(rows))).replace("@@OWN@@",str(own))
 if "## 10. Seeded changes" in s:
     i=s.index("## 10. Seeded changes"); j=s.index("## Appendix A")
     s=s[:i]+sec+s[j:]
